@@ -567,6 +567,17 @@ def cases_C08(rng, tier):
             for posn in range(len(extra) + 1):
                 es = [(I(a[0]), a[1])] + extra[:posn] + [(I(b[0]), b[1])] + extra[posn:]
                 out.append(case("dec", "Header", enc(('m', es)), fam="iv-clash", expect_re=r"err:\w+"))
+    # registry-typed fields at the boundaries of their registries (assigned neighbours, private-use edge),
+    # exhaustively over the palettes: alone in the map, and in the protected slot of a message
+    ok_priv = lambda v: v < -65536
+    for v in sorted(set(ALG_REG + ALG_PRIV + ALG_BAD + [-65535, -65536, -65537, -65538, -6, -5, 0, 7, 8, 24, 25, 26, 27])):
+        hb = enc(M((I(1), I(v))))
+        out.append(case("dec", "Header", hb, fam="alg-palette", **({"expect_re": r"ok .*"} if ok_priv(v) else {})))
+        out.append(case("dec", "CoseMac0", enc(A(B(hb), M(), NULL, B(b""))), fam="alg-palette-protected"))
+    for v in sorted(set(HP_BAD + [1, 2, 7, 8, 9, 10, 11, 256, 257, -65535, -65536, -65537, 0])):
+        out.append(case("dec", "Header", enc(M((I(2), A(I(v))))), fam="crit-palette", **({"expect_re": r"err:\w+"} if v < 0 else {})))
+    for v in sorted(set(CF_BAD + [0, 16, 17, 18, 40, 41, 42, 60, 61, 62, 63, 64, 65535, 65536, -65536, -65537, 10000, 11542, 11543])):
+        out.append(case("dec", "Header", enc(M((I(3), I(v)))), fam="content-format-palette", **({"expect_re": r"err:\w+"} if v < 0 else {})))
     # content-type palette exhaustively
     for t in CT_TEXT_OK:
         out.append(case("dec", "Header", enc(M((I(3), T(t)))), fam="content-type-ok", expect_re=r"ok .*"))
@@ -826,6 +837,16 @@ def cases_C12(rng, tier):
             out.append(case("dec", "Header", hb, fam="dup-decode-kind", strict_err=True))
         else:
             out.append(case("dec", kind, hb, fam="dup-decode:" + kind, expect_re=r"err:\w+", strict_err=True))
+    # a duplicated label at every counter-signature nesting depth (also at and beyond the nesting budget:
+    # whatever the reason, a map with a repeated label is never accepted, and never re-emitted)
+    dups = [enc(M((I(66), I(1)), (I(66), I(2)))), enc(M((I(4), B(b"a")), (("raw", b"\x18\x04"), B(b"a")))), enc(M((T("x"), I(1)), (I(1), I(-7)), (T("x"), I(1))))]
+    for d in range(0, Q(tier, 21, 40)):
+        for form in ("single", "list", "list2"):
+            for dm in dups:
+                hb = nested_header(d, form, inner=dm)
+                out.append(case("dec", "Header", hb, fam="dup-at-depth:Header", expect_re=r"err:\w+"))
+                out.append(case("dec", "CoseSign1", enc(A(B(hb), M(), NULL, B(b""))), fam="dup-at-depth:CoseSign1", expect_re=r"err:\w+"))
+                out.append(case("dec", "CoseMac", enc(A(B(b""), M(), NULL, B(b""), A(A(B(hb), M(), NULL)))), fam="dup-at-depth:CoseMac", expect_re=r"err:\w+"))
     # the precise kind: maps whose every entry is individually valid -> DuplicateMapKey
     for _ in range(Q(tier, 300, 3000)):
         kind = rng.choice(["Header", "CoseKey", "ClaimsSet"])
@@ -906,6 +927,23 @@ def cases_C20(rng, tier):
         for order in ("Lexicographic", "LengthFirstLexicographic"):
             out.append(case("canon", order, enc(d), fam="canon" + ("-label0" if zero else ""), check=chk_sorted(order),
                             label_zero=zero, key=enc(d), order=order))
+    # label sets drawn ONLY from one encoded-length class or straddling exactly one class boundary (a fast
+    # path keyed on "all labels are short" must still agree with the order of the encodings)
+    classes = [[-1, -10, -24, 6, 23], [-25, -100, -256, 24, 25, 255], [-257, -65536, 256, 65535], ["a", "b", ""], ["aa", "ab", "é"]]
+    sets = []
+    for i, ca in enumerate(classes):
+        for cb in classes[i:i + 2]:
+            both = list(dict.fromkeys(ca + cb))
+            for k in (2, 3, 4):
+                for _ in range(Q(tier, 12, 60)):
+                    if len(both) >= k: sets.append(rng.sample(both, k))
+    for a, b in itertools.permutations([-1, -24, -25, 23, 24, 25, -256, -257, 255, 256], 2):
+        sets.append([a, b])
+    for ls in sets:
+        labels = [I(x) if isinstance(x, int) else T(x) for x in ls]
+        d = gen_desc_key(rng, extra_labels=labels)
+        for order in ("Lexicographic", "LengthFirstLexicographic"):
+            out.append(case("canon", order, enc(d), fam="canon-length-classes", check=chk_sorted(order), key=enc(d), order=order))
     # all permutations of a small label set
     base = [I(-1), I(24), T("a"), I(-257), I(7)]
     for perm in itertools.permutations(base, Q(tier, 4, 5)):
@@ -1231,6 +1269,39 @@ def cases_C02(rng, tier):
                             expect="ok 6374 " + pyspec.enc_structure("CoseEncrypt0", p, aad).hex()))
             out.append(case("helperhex", "sign.verify_signature", enc(A(B(inner_p), M(), B(b"pl"), A(A(B(p), M(), B(b"s1"))))), b"\x00", aad,
                             fam="signer-uses-wire-bytes", expect="ok 7331 " + pyspec.sig_structure("CoseSignature", inner_p, p, aad, b"pl").hex()))
+    # every spelling of the EMPTY header (zero-length, wrapped empty map in every width, indefinite) in every
+    # carrier and nesting position, decoded, re-encoded and fed to the structure functions
+    empties = [b"", b"\xa0", b"\xbf\xff", b"\xb8\x00", b"\xb9\x00\x00", b"\xba\x00\x00\x00\x00", b"\xbb" + b"\x00" * 8]
+    small = [enc(M((I(1), I(-7)))), b"\xbf\x01\x26\xff", b"\xa1\x18\x01\x38\x06", b"\xa1\x04\x5f\x41\x31\x41\x32\xff"]
+    for p in empties + small:
+        for q in (b"", b"\xa0", small[1]):
+            carriers = [
+                ("CoseSign1", A(B(p), M(), B(b"pl"), B(b"sg")), [p]),
+                ("CoseMac0", A(B(p), M(), B(b"pl"), B(b"tg")), [p]),
+                ("CoseEncrypt0", A(B(p), M(), B(b"ct")), [p]),
+                ("CoseSignature", A(B(p), M(), B(b"sg")), [p]),
+                ("CoseRecipient", A(B(p), M(), NULL, A(A(B(q), M(), NULL))), [p, q]),
+                ("CoseSign", A(B(q), M(), B(b"pl"), A(A(B(p), M(), B(b"s1")), A(B(q), M(), B(b"s2")))), [q, p, q]),
+                ("CoseEncrypt", A(B(q), M(), B(b"ct"), A(A(B(p), M(), NULL, A(A(B(p), M(), NULL))))), [q, p, p]),
+                ("CoseMac", A(B(p), M(), B(b"pl"), B(b"t"), A(A(B(q), M(), NULL), A(B(p), M(), NULL))), [p, q, p]),
+                ("CoseSign1", A(B(q), M((I(7), A(B(p), M(), B(b"cs")))), NULL, B(b"")), [q, p]),
+                ("CoseSign1", A(B(q), M((I(7), A(A(B(p), M(), B(b"c1")), A(B(q), M(), B(b"c2"))))), NULL, B(b"")), [q, p, q]),
+                ("SuppPubInfo", A(I(128), B(p)), [p]),
+                ("SuppPubInfo", A(I(128), B(p), B(b"o")), [p]),
+                ("CoseKdfContext", A(I(1), A(NULL, NULL, NULL), A(NULL, NULL, NULL), A(I(128), B(p))), [p]),
+                ("CoseKdfContext", A(I(1), A(NULL, NULL, NULL), A(NULL, NULL, NULL), A(I(128), B(p), B(b"")), B(b"x")), [p]),
+            ]
+            for ty, v, slots in carriers:
+                b = enc(v)
+                def chk_rt2(c, o, slots=slots):
+                    if not o.startswith("ok "): return "a well-formed carrier was rejected"
+                    b1 = bytes.fromhex(o.split(" ")[1]); pos = 0
+                    for sl in slots:      # in order of appearance
+                        k = b1.find(head(2, len(sl)) + sl, pos)
+                        if k < 0: return "re-encoding does not contain the protected bytes %s (in order)" % (sl.hex() or "''")
+                        pos = k + 1
+                    return None
+                out.append(case("rt", ty, b, fam="empty-spellings:" + ty, check=chk_rt2, expect_re=r"ok " + b.hex() + r" .*"))
     # builders drop retained bytes
     for _ in range(Q(tier, 40, 400)):
         h = gen_desc_header(rng, 0)
@@ -1256,11 +1327,10 @@ def post_C02(cases, impl):
     return probs
 
 # ================================================================= C01
-def nested_header(d, form="single"):
+def nested_header(d, form="single", inner=b"\xa0"):
     """{7: sig} nested d times through the signature's protected bstr; form: the counter-signature
     parameter as one COSE_Signature ("single"), as a one-element list ("list"), alternating ("mixed"),
-    or a two-element list whose second signature carries the nesting ("list2")"""
-    inner = b"\xa0"
+    or a two-element list whose second signature carries the nesting ("list2"); `inner` = innermost header map"""
     for i in range(d):
         sig = b"\x83" + head(2, len(inner)) + inner + b"\xa0\x40"
         f = form if form != "mixed" else ("single" if i % 2 else "list")
